@@ -500,7 +500,9 @@ func c15BuildEncoder(tier string) core.Source {
 
 func c15BuildNumbering(tier string) core.Source {
 	drive.Quiet()
-	names := []string{"a.b", "a/b", "a-", "a/", "A", "n\x7f", "n\x80", "a b", "a\tb", "a.b.c", "a0", "Z", "_", "a/a", "a/B", "b"}
+	// "." is an ordinary name in protocol 27: top-level names starting with a byte below '.' sort before it
+	names := []string{"a.b", "a/b", "a-", "a/", "A", "n\x7f", "n\x80", "a b", "a\tb", "a.b.c", "a0", "Z", "_", "a/a", "a/B", "b",
+		"+inbox", "-archive", "#r", " x", "!", "-", ".hidden", "..hidden", ".-", "a/-inner", "a/.x"}
 	return core.FuncSource{N: 3, F: func(i int) core.Result {
 		res := core.Result{}
 		dir := workDir()
@@ -605,6 +607,7 @@ func c15BuildNumbering(tier string) core.Source {
 			os.MkdirAll(dest, 0o755)
 			list := &rp.FList{}
 			list.Entries = append(list.Entries, rp.FEntry{Name: []byte("a"), Len: 0, Mtime: tm.Past, Mode: rp.SIFDIR | 0o755})
+			list.Entries = append(list.Entries, rp.FEntry{Name: []byte("."), Len: 4096, Mtime: tm.Past, Mode: rp.SIFDIR | 0o755, TopDir: true})
 			// send in a scrambled order; both sides sort
 			for k := len(files) - 1; k >= 0; k-- {
 				n := files[k]
